@@ -259,6 +259,15 @@ func lpRangeOrCounted(l *loopInfo) (string, bool) {
 		if cv, ok := v.(*ssa.Convert); ok && !inLoop(cv.X) {
 			return true
 		}
+		// len of a field (re-)loaded in the loop: invariant when the loop neither
+		// stores to that field nor calls anything that could (only pure callees)
+		if c, ok := v.(*ssa.Call); ok && bnCallee(c) == "builtin.len" {
+			if ld, ok := c.Call.Args[0].(*ssa.UnOp); ok && ld.Op == token.MUL {
+				if fa, ok := ld.X.(*ssa.FieldAddr); ok && !inLoop(fa.X) || ok && isLoadOfInvariant(fa.X, l) {
+					return loopKeepsField(l, fa)
+				}
+			}
+		}
 		return false
 	}
 	// exit conditions of the loop
@@ -318,6 +327,53 @@ func lpRangeOrCounted(l *loopInfo) (string, bool) {
 		}
 	}
 	return "", false
+}
+
+// isLoadOfInvariant: a pointer that is itself (re)loaded from a location
+// outside the loop's reach, e.g. the receiver parameter.
+func isLoadOfInvariant(v ssa.Value, l *loopInfo) bool {
+	switch v := v.(type) {
+	case *ssa.Parameter, *ssa.FreeVar, *ssa.Global:
+		return true
+	case *ssa.FieldAddr:
+		return isLoadOfInvariant(v.X, l)
+	}
+	if ld, ok := v.(*ssa.UnOp); ok && ld.Op == token.MUL && l.Body[ld.Block()] {
+		// a pointer field re-loaded in the loop from an invariant object and not stored there
+		if fa, ok := ld.X.(*ssa.FieldAddr); ok && isLoadOfInvariant(fa.X, l) {
+			return loopKeepsField(l, fa)
+		}
+		return false
+	}
+	if in, ok := v.(ssa.Instruction); ok {
+		return !l.Body[in.Block()]
+	}
+	return false
+}
+
+// loopKeepsField: no store to the field in the loop body and every call in
+// it is a builtin or pure.
+func loopKeepsField(l *loopInfo, fa *ssa.FieldAddr) bool {
+	for b := range l.Body {
+		for _, in := range b.Instrs {
+			switch in := in.(type) {
+			case *ssa.Store:
+				if f2, ok := in.Addr.(*ssa.FieldAddr); ok && f2.Field == fa.Field && types.Identical(f2.X.Type(), fa.X.Type()) {
+					return false
+				}
+			case ssa.CallInstruction:
+				cc := in.Common()
+				if _, isB := cc.Value.(*ssa.Builtin); isB {
+					continue
+				}
+				cal := cc.StaticCallee()
+				if cal == nil || !globalPurity.isPure(cal) {
+					return false
+				}
+			}
+		}
+	}
+	return true
 }
 
 func lpRecursion(c *Ctx, a *flAgg) {
